@@ -833,6 +833,73 @@ def thread_files(path):
     return out
 
 
+MATED_NODE_SITES = {1: "mate-distance-pruning", 2: "draw50-but-mated", 5: "tt-cutoff", 8: "quiesce-at-depth0", 18: "loop-end-fail-low"}
+
+
+def conformance_mate_in_one(searches, recs, fens, mating, stats, breaks):
+    """Tie of the completeness model Search/MateInOneFlow.v: on traced single-thread searches of
+    positions with a mating root move, (a) every completed iteration searched every legal root
+    move, (b) the node of every mating root move was entered in check at depth-1 (no root
+    reduction), left through one of the enumerated return sites with the mated score (or alpha at
+    the mate-distance-pruning site) and the root used minus that value, (c) each completed
+    iteration ended with an exact mate-1 score for a mating move and no other move got an exact /
+    lower-bound score of mate 1 or better."""
+    def bad(s, what, **kw):
+        d = dict(kind="conformance", what="mate-in-one control flow not as modelled: " + what, fen=s["root_fen"], root_fen=s["root_fen"])
+        d.update(kw)
+        breaks.append(d)
+    for s in searches:
+        rf = s["root_fen"]
+        if not rf or not mating.get(rf) or s.get("file", 0) > 0:
+            continue
+        ann = fens.get(rf)
+        if ann is None:
+            continue
+        legal = set(c for c, _ in ann[1])
+        by_depth = {}
+        for tag, ev in s["events"]:
+            if tag == "R":
+                by_depth.setdefault(ev[0], []).append(ev)
+        if not by_depth:
+            continue
+        stats["conformance_searches"] = stats.get("conformance_searches", 0) + 1
+        done = any(tag == "D" for tag, _ in s["events"])
+        for depth in sorted(by_depth):
+            rs = by_depth[depth]
+            searched = set(r[3] for r in rs)
+            last = depth == max(by_depth)
+            if searched != legal:
+                if last and not done:
+                    continue            # the search was stopped inside this iteration
+                bad(s, "iteration %d searched %d of %d legal root moves" % (depth, len(searched & legal), len(legal)), depth=depth)
+                continue
+            stats["conformance_iterations"] = stats.get("conformance_iterations", 0) + 1
+            exact_mate1 = False
+            for (d_, mi, nmoves, move, alpha, beta, score, cid) in rs:
+                u = code_to_uci(move)
+                if u in mating[rf]:
+                    c = recs.get(cid)
+                    if c is None or c.kind != 8 or c.move != move or c.ply != 1:
+                        bad(s, "no node record for mating root move %s at depth %d" % (u, depth), depth=depth, move=u)
+                        continue
+                    stats["conformance_mated_node_%s" % MATED_NODE_SITES.get(c.site, c.site)] = \
+                        stats.get("conformance_mated_node_%s" % MATED_NODE_SITES.get(c.site, c.site), 0) + 1
+                    okv = (c.site == 1 and c.score == c.alpha) or (c.site in (2, 5, 8, 18) and c.score == -(MATE0 - 2))
+                    if c.site == 8:
+                        q = recs.get(c.qid)
+                        okv = okv and q is not None and q.site in (20, 22) and q.score == -(MATE0 - 2) and q.ic == 1
+                    if not (c.site in MATED_NODE_SITES and okv and c.ic == 1 and c.depth == depth - 1
+                            and c.alpha == -beta and c.beta == -alpha and score == -c.score):
+                        bad(s, "node of mating root move %s: site %s, score %d, inCheck %d, depth %d at iteration %d, window (%d,%d) for root window (%d,%d), root score %d"
+                            % (u, SITE_NAMES.get(c.site, c.site), c.score, c.ic, c.depth, depth, c.alpha, c.beta, alpha, beta, score), depth=depth, move=u)
+                    if alpha < score < beta and score == MATE0 - 2:
+                        exact_mate1 = True
+                elif score > alpha and score >= MATE0 - 2:
+                    bad(s, "non-mating root move %s got score %d (exact/lower bound) at depth %d" % (u, score, depth), depth=depth, move=u)
+            if not exact_mate1:
+                bad(s, "iteration %d has no exact mate-1 result for a mating move" % depth, depth=depth)
+
+
 def justify_trace(ml_exe, harness_exe, path):
     """Check every mate-score node of one engine process's trace (all its threads).
     Returns (breaks, stats, number of checker verdicts, keys of distinct justified nodes).
@@ -874,6 +941,11 @@ def justify_trace(ml_exe, harness_exe, path):
     ans = batch(harness_exe, ["A " + f for f in fl], timeout=1800)
     for f, a in zip(fl, ans):
         fens[f] = parse_annot(a)
+    roots = sorted(set(s["root_fen"] for s in searches if s["root_fen"]))
+    mating = {}
+    for f, a in zip(roots, batch(harness_exe, ["Q %s | 1" % f for f in roots], timeout=1800)):
+        tq = a.split()
+        mating[f] = set(tq[1:]) if tq and tq[0] == "1" else set()
     # ---- build the request stream for the extracted checker
     reqs = []        # (line, meta); one fresh checker process per trace file
     recs = {}
@@ -1003,6 +1075,8 @@ def justify_trace(ml_exe, harness_exe, path):
                     reqs.append(("RL %d %d %d %s" % (best, n, len(ch), " ".join(str(x) for x in ch)), ("RL", (best, s["root_fen"]), si)))
                 last_r = {}
     # ---- run the extracted checker
+    if not mt:
+        conformance_mate_in_one(searches, recs, fens, mating, stats, breaks)
     nreq = len(reqs)
     outs = batch_retry(ml_exe, [l for l, _ in reqs], retry=mt)
     out = outs[:nreq]
